@@ -57,17 +57,21 @@ BaseRAPass::BaseRAPass(BaseCompiler& cc) noexcept : Pass(cc, "RAPass") {}
 BaseRAPass::~BaseRAPass() noexcept {}
 
 static void RAPass_reset_virt_reg_data(BaseRAPass* self) noexcept {
-  for (RAWorkReg* work_reg : self->_work_regs) {
-    VirtReg* virt_reg = work_reg->virt_reg();
+  // Iterate the per-group vectors - every work register is there since its creation, whereas `_work_regs` is only
+  // populated by `build_reg_ids()`, which doesn't run when an earlier step fails.
+  for (RegGroup group : Support::enumerate(RegGroup::kMaxVirt)) {
+    for (RAWorkReg* work_reg : self->_work_regs_of_group[group]) {
+      VirtReg* virt_reg = work_reg->virt_reg();
 
-    // Update the information regarding the stack of the virtual register.
-    if (work_reg->has_stack_slot()) {
-      RAStackSlot* slot = work_reg->stack_slot();
-      virt_reg->assign_stack_slot(slot->offset());
+      // Update the information regarding the stack of the virtual register.
+      if (work_reg->has_stack_slot()) {
+        RAStackSlot* slot = work_reg->stack_slot();
+        virt_reg->assign_stack_slot(slot->offset());
+      }
+
+      // Reset work reg association so it cannot be used by accident (RAWorkReg data will be destroyed).
+      virt_reg->_work_reg = nullptr;
     }
-
-    // Reset work reg association so it cannot be used by accident (RAWorkReg data will be destroyed).
-    virt_reg->_work_reg = nullptr;
   }
 }
 
